@@ -25,6 +25,12 @@ BUCKETS = ("scene", "photon", "charge", "pixel", "signal", "image")
 BNAME = dict(scene="Scene", photon="Photon", charge="Charge", pixel="Pixel", signal="Signal", image="Image")
 WGROUPS = ("photon_collection", "charge_generation", "charge_collection", "charge_measurement", "readout_electronics")
 HISTORIES = ("fresh", "junk", "other_mode", "failed", "failed_other")
+ENTRIES = ("run_mode", "run_exposure", "deprecated_loop")
+DETECTORS = ("ccd", "cmos", "mkid", "apd")
+
+
+def gen_entry(r):
+    return r.choices(ENTRIES, [76, 12, 12])[0]
 
 
 def hx(x: float) -> str:
@@ -124,7 +130,8 @@ def gen_valid_case(r, force=None):
         ["list", "intlist", "tuple", "scalar", "numpy_str", "file_npy", "file_txt", "ndarray"],
         [30, 6, 8, 8, 12, 8, 8, 3])[0]
     c = dict(form=form, nd=force.get("nd", r.random() < 0.5), ops=[], history=force.get("history") or r.choice(HISTORIES),
-             wgroup=r.choice(WGROUPS), rows=r.choice([1, 2, 3]), cols=r.choice([1, 2, 4]))
+             wgroup=r.choice(WGROUPS), rows=r.choice([1, 2, 3]), cols=r.choice([1, 2, 4]),
+             entry=force.get("entry") or gen_entry(r), detector=r.choices(DETECTORS, [70, 10, 10, 10])[0])
     if form == "numpy_str":
         expr = r.choice(NUMPY_EXPRS)
         ts = numpy_values(expr)
@@ -335,7 +342,8 @@ def gen_session(r, n_runs=None, keep=None, reuse=None, tamper_p=0.5, n=None, ent
     n_runs = n_runs or r.choice([2, 2, 2, 3, 3, 4])
     first = gen_valid_case(r, dict(form=r.choice(["list", "list", "tuple", "file_npy", "numpy_str", "intlist"]),
                                    nops=r.choice([0, 0, 1]), n=n, no_bare_replace=True))
-    common = dict(history=first.pop("history"), rows=first.pop("rows"), cols=first.pop("cols"))
+    common = dict(history=first.pop("history"), rows=first.pop("rows"), cols=first.pop("cols"),
+                  detector=first.pop("detector"))
     if entry:
         first["entry"] = entry
     runs = [first]
@@ -355,9 +363,7 @@ def gen_session(r, n_runs=None, keep=None, reuse=None, tamper_p=0.5, n=None, ent
         else:
             nts, _ = gen_times(r, n=(len(pts) if r.random() < 0.4 else None), start=max(pstart, nstart))
         nnd = pnd if kn else (not pnd)
-        c = dict(nd=nnd, wgroup=r.choice(WGROUPS), ops=[])
-        if entry:
-            c["entry"] = entry
+        c = dict(nd=nnd, wgroup=r.choice(WGROUPS), ops=[], entry=entry or gen_entry(r))
         if use_obj:
             c.update(reuse=True, form=prev["form"], times=[], start=hx(pstart))
             if not kt or r.random() < 0.25:
@@ -389,6 +395,13 @@ def gen_sessions(r, n_random: int):
                 for use_obj in (True, False):
                     out.append(gen_session(r, n_runs=2, keep=[(kt, ks, kn)], reuse=[use_obj], tamper_p=0.0,
                                            n=r.choice([1, 2, 3, 4])))
+    # the caller writes the NEXT run's start time into the object the detector still carries (public setters),
+    # then runs the same sampling from that start
+    for target in ("rp.start_time", "det.start_time"):
+        for use_obj in (True, False):
+            c = gen_session(r, n_runs=2, keep=[(True, False, True)], reuse=[use_obj], tamper_p=0.0, n=r.choice([1, 2, 3]))
+            c["tamper"] = [[target, hx(intended_final(c)[1])]]
+            out.append(c)
     # the same schedule three times, start moving both ways
     out.append(gen_session(r, n_runs=3, keep=[(True, False, True)] * 2, reuse=[True, True], tamper_p=0.0, n=3))
     out.append(gen_session(r, n_runs=3, keep=[(True, False, True)] * 2, reuse=[False, False], tamper_p=0.0, n=2))
@@ -668,6 +681,8 @@ def evaluate(ctx: Ctx, cases, tag="c", count=True):
             ctx.dist("readouts", len(intended_final(c)[0]))
             ctx.dist("ops", len(eff(c).get("ops", [])))
             ctx.dist("malformed", c.get("malformed", "-"))
+            ctx.dist("entry", c.get("entry", "run_mode"))
+            ctx.dist("detector", c.get("detector", "ccd"))
             ctx.dist("outcome", "ran" if o.get("stage") is None else f"rejected_stage_{o['stage']}")
     return mism, viol, pairs
 
@@ -693,6 +708,11 @@ def shrink_session(ctx: Ctx, c, o):
                 cands.append(dict(c, pre=[prev], tamper=tamper, plan=plan, history=hist, rows=1, cols=1))
                 cands.append(dict(c, pre=[dict(prev, tamper=(pre[-1].get("tamper") or []))], tamper=tamper, plan=plan,
                                   history=hist, rows=1, cols=1))
+    tam = c.get("tamper") or []
+    if len(tam) > 1:
+        subs = [[t] for t in tam] + [[a, b] for i, a in enumerate(tam) for b in tam[i + 1:]]
+        for sub in subs[:12]:
+            cands.append(dict(c, pre=[prev], tamper=sub, plan=[], history="fresh", rows=1, cols=1))
     for d in cands:
         d.pop("judge_all", None)
     _, viol, _ = evaluate(ctx, cands, tag="shs", count=False)
@@ -733,7 +753,7 @@ def shrink(ctx: Ctx, c, o):
                     for plan in ([[] for _ in range(n)], px[:n], c.get("plan", [])[:n]):
                         cands.append(dict(form=base_forms, times=[hx(t) for t in fts[:n]], start=hx(fstart),
                                           nd=fnd, ops=[], plan=plan, history=hist, wgroup=c.get("wgroup"),
-                                          rows=1, cols=1, **({"entry": c["entry"]} if c.get("entry") else {})))
+                                          rows=1, cols=1, **{k: c[k] for k in ("entry", "detector") if c.get(k)}))
     else:
         add(plan=[], history="fresh", rows=1, cols=1)
         if len(c.get("ops", [])) > 1:
